@@ -1635,6 +1635,32 @@ def application_bound(ctx, rule='operator-application-bound'):
                   'application sites as assumed by the bound 2 + 2 (ncv - 1) (maxit + 1)' if not problems else '; '.join(problems))
     if n < 12:
         raise AnalysisBroken('only %d factorization members with operator applications' % n)
+    # who else applies the iteration operator: the factorization accounts for 2 + 2 (ncv - 1) (maxit + 1) applications, which leaves
+    # a slack of 2 (maxit + 1) >= 2 under the stated bound 2 + 2 ncv (maxit + 1); any site in a solver class must fit into it
+    from .eigsbase import SOLVER_TMPLS
+    solver_classes = set(SOLVER_TMPLS) | {'Spectra::HermEigsBase', 'Spectra::GenEigsBase', 'Spectra::SymEigsBase', 'Spectra::PartialSVDSolver'}
+    seen_extra = set()
+    nsolver = 0
+    for fn in ctx.F.concrete():
+        if fn.cls not in solver_classes or not fn.cfg:
+            continue
+        nsolver += 1
+        apps = [x for x in fn.walk() if x['k'] == 'CXXMemberCallExpr' and x.get('callee') == 'perform_op']
+        if not apps or (fn.cls, fn.name) in seen_extra:
+            continue
+        seen_extra.add((fn.cls, fn.name))
+        per = []
+        for a in apps:
+            lps = [l for l in fn.ancestors(a) if l['k'] in ('ForStmt', 'WhileStmt', 'DoStmt')]
+            per.append(' x '.join(show(sym(fn, l['cond'], inline=False)) for l in lps) or 'once')
+        bounded = all(p == 'once' for p in per) and len(apps) <= 2
+        ctx.check(bounded, rule, '%s::%s' % (fn.cls.replace('Spectra::', ''), fn.name), fn.qname,
+                  '%d application(s) outside loops: within the slack 2 (maxit + 1) of the bound' % len(apps) if bounded else
+                  '%d application site(s) of the iteration operator in a solver member, each run while %s: with the 2 + 2 (ncv - 1) (maxit + 1) applications of the '
+                  'factorization (a breakdown in every step) this exceeds 2 + 2 ncv (maxit + 1) as soon as the count is above 2 (maxit + 1) -- maxit = 0 is in the domain; '
+                  'these applications are not counted by num_operations() either' % (len(apps), ' / '.join(sorted(set(per)))))
+    if nsolver < 40:
+        raise AnalysisBroken('only %d solver members scanned for operator applications' % nsolver)
     # compute(): one full factorization outside the restart loop; restart(): one continuation
     for base in ('Spectra::HermEigsBase', 'Spectra::GenEigsBase'):
         for comp in ctx.F.insts(base + '::compute'):
@@ -1648,6 +1674,9 @@ def application_bound(ctx, rule='operator-application-bound'):
 
 def run(ctx):
     _run(ctx)
+    from . import shiftsolvers, c16
+    c16.shape_predicates(ctx)
+    shiftsolvers.complex_shift_backtransform_defined_at_zero(ctx)
     dense_kernel_contracts(ctx)
     packed_storage_contracts(ctx)
     aligned_access_evidence(ctx)
